@@ -498,6 +498,23 @@ func classifyErr(fi *FactInfo, b *ssa.BasicBlock, v ssa.Value, depth int) errKin
 			if isErrorCtor(f) {
 				return errNonNil
 			}
+			// return h.GetError() under the fact h.HasError()
+			if f.Name() == "GetError" {
+				recv := callRecv(x.Common())
+				if recv != nil && fi.HoldsWhere(b, func(ft Fact) bool {
+					if ft.Kind != "true" || !ft.Pol {
+						return false
+					}
+					hc, ok := ft.V.(*ssa.Call)
+					if !ok {
+						return false
+					}
+					hf, _ := calleeOf(hc.Common())
+					return hf != nil && hf.Name() == "HasError" && sameAddr(callRecv(hc.Common()), recv)
+				}) {
+					return errNonNil
+				}
+			}
 		}
 	case *ssa.Phi:
 		if depth > 4 {
@@ -610,4 +627,35 @@ func sameVar(a, b *types.Var) bool {
 		return false
 	}
 	return a.Origin() == b.Origin()
+}
+
+// callRecv returns the receiver operand of a method call (invoke or static).
+func callRecv(c *ssa.CallCommon) ssa.Value {
+	if c.IsInvoke() {
+		return c.Value
+	}
+	if f, _ := calleeOf(c); f != nil && f.Type().(*types.Signature).Recv() != nil && len(c.Args) > 0 {
+		return c.Args[0]
+	}
+	return nil
+}
+
+// sameAddr: syntactically the same memory location / value (no intervening-store reasoning;
+// used only for receivers of pure observers such as HasError/GetError).
+func sameAddr(a, b ssa.Value) bool {
+	if a == nil || b == nil {
+		return false
+	}
+	if a == b {
+		return true
+	}
+	switch x := a.(type) {
+	case *ssa.FieldAddr:
+		y, ok := b.(*ssa.FieldAddr)
+		return ok && x.Field == y.Field && sameAddr(x.X, y.X)
+	case *ssa.UnOp:
+		y, ok := b.(*ssa.UnOp)
+		return ok && x.Op == y.Op && x.Op == token.MUL && sameAddr(x.X, y.X)
+	}
+	return false
 }
